@@ -5,6 +5,7 @@ import (
 	"go/ast"
 	"go/token"
 	"go/types"
+	"sort"
 	"strings"
 )
 
@@ -388,7 +389,9 @@ func runC14(r *Run) {
 		okV := false
 		for _, c := range v.CallsNamed("AddCache") {
 			if len(c.Args) == 1 && strings.Contains(exprString(c.Args[0]), "ItemV(") {
-				if v.factsOf(c).cmp(func(cm cmp) bool { return cm.Op == ">" && strings.HasPrefix(exprString(cm.L), "len(") && exprString(cm.R) == "0" }) {
+				if v.factsOf(c).cmp(func(cm cmp) bool {
+					return cm.Op == ">" && strings.HasPrefix(exprString(cm.L), "len(") && exprString(cm.R) == "0"
+				}) {
 					// only that condition
 					okV = true
 				}
@@ -573,6 +576,54 @@ func runC14(r *Run) {
 				return true
 			})
 			r.check(okMark && nMark >= 1, "C14.R1", "replay|force-seal-marked", ev.pos(ev.Decl), "EndBlock marks exactly the blocks in which it force-seals", "the force-seal mark is not written in (exactly) the arm that turns the force flag of SealRound on: the rebuild replays a force-seal that did not happen, or misses one that did")
+		}
+		// the mark counts whenever it lies inside the replay window or in the block right before it:
+		// mark + 1 >= from (and mark < to)
+		{
+			okWin := false
+			ast.Inspect(rv.Decl.Body, func(n ast.Node) bool {
+				ifs, isIf := n.(*ast.IfStmt)
+				if !isIf || ifs.Init == nil {
+					return true
+				}
+				init, isAs := ifs.Init.(*ast.AssignStmt)
+				if !isAs || len(init.Rhs) != 1 {
+					return true
+				}
+				if c, isC := stripParens(init.Rhs[0]).(*ast.CallExpr); !isC || rv.calleeName(c) != "GetForceSealBlock" {
+					return true
+				}
+				mark := rv.objOf(init.Lhs[0])
+				var fs []Fact
+				decompose(ifs.Cond, true, ifs, &fs)
+				lower, upper, extra := false, false, 0
+				for _, f := range fs {
+					if id, isID := stripParens(f.Atom).(*ast.Ident); isID && f.Truth && len(init.Lhs) == 2 && rv.objOf(id) == rv.objOf(init.Lhs[1]) {
+						continue
+					}
+					cm, isC := factCmp(f)
+					if !isC {
+						extra++
+						continue
+					}
+					diff := sumTerms(&ast.BinaryExpr{X: stripConvDeep(cm.L), Op: token.SUB, Y: stripConvDeep(cm.R)})
+					mn := mark.Name()
+					nf := func(terms ...string) string { sort.Strings(terms); return strings.Join(terms, "+") }
+					switch {
+					case (cm.Op == ">=" && diff == nf("1", mn, "-from")) || (cm.Op == ">" && diff == nf("2", mn, "-from")) || (cm.Op == "<=" && diff == nf("-1", "from", "-"+mn)) || (cm.Op == "<" && diff == nf("-2", "from", "-"+mn)):
+						lower = true
+					case (cm.Op == "<" && diff == nf(mn, "-to")) || (cm.Op == ">" && diff == nf("to", "-"+mn)) || (cm.Op == "<=" && diff == nf("1", mn, "-to")):
+						upper = true
+					default:
+						extra++
+					}
+				}
+				if lower && upper && extra == 0 {
+					okWin = true
+				}
+				return true
+			})
+			r.check(okWin, "C14.R1", "replay|force-seal-window", rv.pos(rv.Decl), "the force-seal mark is honoured exactly when it lies in the replay window or in the block right before it", "the rebuild does not test the force-seal mark with `mark+1 >= from && mark < to`: a validator-set change on the first block of the window (or right before it) is replayed as an ordinary block and its force-seal is lost")
 		}
 		r.check(okHelper, "C14.R1", "replay|force-seal-reproduced", rv.pos(rv.Decl), "the force-seal of a validator-set change is reproduced as the live EndBlock did it: rounds of the previous block prepared, all sealed at the change's height", "no helper of the rebuild calls PrepareRoundEndBlock(h-1) and then SealRound(ctx.WithBlockHeight(h), true)")
 		r.check(okSites, "C14.R1", "replay|force-seal-before-first-prepare", rv.pos(rv.Decl), "both arms of the rebuild reproduce the force-seal before they prepare any round, with the height of the validator-set change", "the rebuild does not reproduce the force-seal of the validator-set change that bounds the window (in both arms, before PrepareRoundEndBlock): a round whose window is still running is re-created open on the restarted node, which accepts submissions the other nodes reject and closes the round twice")
